@@ -76,7 +76,7 @@ func scalarSet(thorough bool) (names []string, vals map[string]*big.Int) {
 		"n-1": sub(n, one), "n": n, "n+1": add(n, one),
 		"2^128-1": sub(p2(128), one), "2^128": p2(128), "2^128+1": add(p2(128), one),
 		"2^256-1": sub(p2(256), one), "lambda": lambdaN, "(n-1)/2": new(big.Int).Rsh(n, 1),
-		"0x5555..": hexBig("5555555555555555555555555555555555555555555555555555555555555555"),
+		"0x5555..":              hexBig("5555555555555555555555555555555555555555555555555555555555555555"),
 		"split-boundary-a1b2":   bnd(a1b2, 0),
 		"split-boundary-a1b2+1": add(bnd(a1b2, 0), one),
 		"random1":               hashScalar("verif C08 scalar 1"),
@@ -86,16 +86,16 @@ func scalarSet(thorough bool) (names []string, vals map[string]*big.Int) {
 			"n-2": sub(n, big.NewInt(2)), "n+2": add(n, big.NewInt(2)),
 			"2^127": p2(127), "2^129-1": sub(p2(129), one), "2^255": p2(255), "2^64": p2(64), "2^64-1": sub(p2(64), one),
 			"lambda-1": sub(lambdaN, one), "lambda+1": add(lambdaN, one), "n-lambda": sub(n, lambdaN), "(n+1)/2": add(new(big.Int).Rsh(n, 1), one),
-			"0xaaaa..":            hexBig("AAAAAAAAAAAAAAAAAAAAAAAAAAAAAAAAAAAAAAAAAAAAAAAAAAAAAAAAAAAAAAAA"),
-			"0xffff0000..":        hexBig("FFFF0000FFFF0000FFFF0000FFFF0000FFFF0000FFFF0000FFFF0000FFFF0000"),
-			"ones-run-140":        sub(p2(140), one),
-			"ones-run-high":       sub(p2(256), p2(116)),
-			"split-boundary-b1":   bnd(b1, 0),
-			"split-boundary-b1+1": add(bnd(b1, 0), one),
+			"0xaaaa..":                 hexBig("AAAAAAAAAAAAAAAAAAAAAAAAAAAAAAAAAAAAAAAAAAAAAAAAAAAAAAAAAAAAAAAA"),
+			"0xffff0000..":             hexBig("FFFF0000FFFF0000FFFF0000FFFF0000FFFF0000FFFF0000FFFF0000FFFF0000"),
+			"ones-run-140":             sub(p2(140), one),
+			"ones-run-high":            sub(p2(256), p2(116)),
+			"split-boundary-b1":        bnd(b1, 0),
+			"split-boundary-b1+1":      add(bnd(b1, 0), one),
 			"split-boundary-a1b2(j=1)": bnd(a1b2, 1),
-			"2^13":   p2(13),
-			"2^14-1": sub(p2(14), one),
-			"random2": hashScalar("verif C08 scalar 2"),
+			"2^13":                     p2(13),
+			"2^14-1":                   sub(p2(14), one),
+			"random2":                  hashScalar("verif C08 scalar 2"),
 		}
 		for k, v := range more {
 			vals[k] = v
